@@ -147,6 +147,14 @@ Theorem levels_nest : forall t : mtree, tree_good t -> root_total t < two63 ->
 Proof. exact levels_nest_proof. Qed.
 Print Assumptions levels_nest.
 
+(* the same for every tree accepted by the boolean tree_regular (distinct parent keys and node ids, ids <> 0,
+   self, total >= 0, exact conservation, root total < 2^63) -- the precondition the check evaluates on the
+   OBSERVED merged trees before it applies the nesting oracle to the observed levels *)
+Theorem levels_nest_checkable : forall t : mtree, tree_regular (m_nodes t) = true ->
+  exists ls, bfs t = [root_bar (root_total t)] :: ls /\ nest_levels [root_bar (root_total t)] ls.
+Proof. exact levels_nest_regular. Qed.
+Print Assumptions levels_nest_checkable.
+
 Theorem levels_disjoint : forall (l : list bar) (c : Z), (forall b, In b l -> 0 <= b_off b /\ 0 <= b_total b) ->
   ForallOrdPairs (fun x y => snd (fst x) <= fst (fst y)) (abs_level c l).
 Proof. exact abs_level_disjoint. Qed.
